@@ -66,6 +66,10 @@ func (a *Args) Add(key string, val any) error {
 	if err := limits.ValidateIntegerBoundsIPLD(node); err != nil {
 		return fmt.Errorf("value for key %q: %w", key, err)
 	}
+	// a null can't be read back as a top-level value: the decoders refuse it
+	if node.Kind() == datamodel.Kind_Null {
+		return fmt.Errorf("value for key %q: null is not supported as a top-level value", key)
+	}
 
 	a.Values[key] = node
 	a.Keys = append(a.Keys, key)
